@@ -38,6 +38,9 @@ type c12Peer struct {
 	held     []net.Conn
 	accepted atomic.Int64
 	received atomic.Int64
+	finished atomic.Int64 // connections read to their end
+	data     []byte       // what a reading peer received (under mu)
+	dgrams   []string     // datagram peers: one entry per datagram (under mu)
 	wg       sync.WaitGroup
 }
 
@@ -64,6 +67,10 @@ func newC12Peer(format, fault string) (*c12Peer, error) {
 				if err != nil {
 					return
 				}
+				p.mu.Lock()
+				p.data = append(p.data, buf[:n]...)
+				p.dgrams = append(p.dgrams, string(buf[:n]))
+				p.mu.Unlock()
 				p.received.Add(int64(n))
 			}
 		}()
@@ -129,9 +136,13 @@ func newC12Peer(format, fault string) (*c12Peer, error) {
 					p.wg.Add(1)
 					go func() {
 						defer p.wg.Done()
-						n, _ := io.Copy(io.Discard, c)
-						p.received.Add(n)
+						b, _ := io.ReadAll(c)
+						p.mu.Lock()
+						p.data = append(p.data, b...)
+						p.mu.Unlock()
+						p.received.Add(int64(len(b)))
 						c.Close()
+						p.finished.Add(1)
 					}()
 				}
 			}
@@ -198,4 +209,17 @@ func c12Bulk(format, fault string) *metrics.Metric {
 		datum.SetInt(d, int64(i), time.Unix(1700000000, 0))
 	}
 	return m
+}
+
+// got returns what the peer has received so far.
+func (p *c12Peer) got() string {
+	p.mu.Lock()
+	defer p.mu.Unlock()
+	return string(p.data)
+}
+
+func (p *c12Peer) datagrams() []string {
+	p.mu.Lock()
+	defer p.mu.Unlock()
+	return append([]string(nil), p.dgrams...)
 }
